@@ -283,7 +283,7 @@ def _taint_use(m: Module, fi: Optional[FuncInfo], call: ast.Call) -> Tuple[str, 
                 return ("OK", "debug output")
             if last in ("sorted", "sort", "min", "max"):
                 return ("VIOLATION", f"decides an ordering (`{src(par, 50)}`)")
-            if last in ("fresh_name", "Value", "val", "Node", "rename_values", "Attr", "AttrString"):
+            if last in ("fresh_name", "Value", "val", "Node", "rename_values", "Attr", "AttrString") or ("fresh" in last and "name" in last):
                 return ("VIOLATION", f"flows into a model name / attribute (`{src(par, 50)}`)")
             if last in ("str", "repr", "format", "hex"):
                 return None  # keep following
